@@ -31,6 +31,18 @@ def mul_quat(u: wp.quat, v: wp.quat) -> wp.quat:
 
 
 @wp.func
+def normalize_quat(q: wp.quat) -> wp.quat:
+  """Normalizes a quaternion; a (near-)zero quaternion gives the identity, as mju_normalize4 does.
+
+  wp.normalize maps the zero quaternion to slots (0, 0, 0, 1), which in MuJoCo's (w, x, y, z)
+  order is a half turn about z.
+  """
+  if wp.length(q) < types.MJ_MINVAL:
+    return wp.quat(1.0, 0.0, 0.0, 0.0)
+  return wp.normalize(q)
+
+
+@wp.func
 def quat_mul_axis(q: wp.quat, axis: wp.vec3f) -> wp.quat:
   """Multiplies a quaternion and an axis."""
   return wp.quat(
